@@ -235,6 +235,7 @@ struct GenOpts {
 	double min_table_bias = 0.35; // probability that a dimension takes the minimum knot count
 	bool known_patterns = true;
 	bool custom_extents = true;   // 35% of tables carry EXTENTS that differ from the supported knot range
+	bool zero_width_support = false; // some "repeated" dimensions (order >= 2) have all knots of the fully supported range coincide: that range is a single point
 };
 static inline std::vector<double> gen_knots(Rng &r, unsigned o, int nk, int flavor, double scale, double origin, bool strict) {
 	std::vector<double> k;
@@ -297,7 +298,7 @@ static inline Spec gen_spec(Rng &r, const GenOpts &g) {
 		if (magcls == 4) { scale = std::pow(10.0, r.U() * g.mag_exp_max); origin_mag = scale; }
 		else if (magcls == 5) { scale = std::pow(10.0, -r.U() * g.mag_exp_max); origin_mag = scale; }
 		bool allmin = r.coin(0.15);
-		size_t tot = 1; bool bad = false;
+		size_t tot = 1; bool bad = false, zws = false;
 		for (int d = 0; d < nd; d++) {
 			unsigned o = ord[d];
 			int extra = (allmin || r.coin(g.min_table_bias)) ? 0 : (int)r.range(1, g.extra_knots_max);
@@ -306,6 +307,14 @@ static inline Spec gen_spec(Rng &r, const GenOpts &g) {
 			double origin = (r.U() * 10 - 5) * origin_mag;
 			if (r.coin(0.2)) origin = -std::fabs(origin) - 3 * scale * nk; // negative range
 			s.order.push_back(o);
+			if (g.zero_width_support && flavor == 3 && o >= 2 && r.coin(0.3)) {
+				// knots[order..nknots-order-1] coincide (at most `order' of them): the fully supported range is the single point they mark, reached from the left piece
+				nk = 2 * (int)o + 2 + (int)r.below(o - 1);
+				std::vector<double> k = gen_knots(r, o, nk, 1, scale, origin, true);
+				double v = k[o], sh = k[nk - o - 1] - v;
+				for (int i = (int)o; i < nk; i++) k[i] = i <= nk - (int)o - 1 ? v : k[i] - sh;
+				s.knots.push_back(k); zws = true;
+			} else
 			s.knots.push_back(gen_knots(r, o, nk, flavor, scale, origin, g.strict_increasing));
 			tot *= (size_t)(nk - o - 1);
 			if (tot > g.max_coef) { bad = true; break; }
@@ -336,7 +345,7 @@ static inline Spec gen_spec(Rng &r, const GenOpts &g) {
 			}
 			cfn = "special";
 		}
-		s.flavor = std::string(knot_flavor_name(flavor)) + "/" + (magcls == 4 ? "hugeknots" : magcls == 5 ? "tinyknots" : "unit") + "/" + cfn + (allmin ? "/allmin" : "");
+		s.flavor = std::string(knot_flavor_name(flavor)) + "/" + (magcls == 4 ? "hugeknots" : magcls == 5 ? "tinyknots" : "unit") + "/" + cfn + (allmin ? "/allmin" : "") + (zws ? "/zero-width-support" : "");
 		if (g.custom_extents && r.coin(0.35)) add_custom_extents(r, s);
 		return s;
 	}
